@@ -18,6 +18,7 @@ struct EngineFeatures {
   bool hostileKeys = true;    // NUL / non-UTF-8 / long spellings
   bool numericKeys = false;   // numeric-looking spellings (SQLite affinity)
   bool hostileValues = true;
+  bool clientVersions = false; // histories change the database's client schema version
 };
 
 struct EngineGen {
